@@ -21,6 +21,9 @@ class Boom(Exception):
     pass
 
 
+BODY_EXCEPTIONS = (Boom, ConnectionResetError, TimeoutError, ValueError, ConnectionRefusedError, RuntimeError, BrokenPipeError, KeyError)
+
+
 def legal(history):
     """Histories the statement quantifies over (no connect while connected, no operation while disconnected)."""
     connected = False
@@ -249,12 +252,15 @@ class C18(Prop):
                             acc.violation("aenter-returned-other", "async with did not yield the api object", {})
                         out = await do_op()
                         if a == "ctx_exc":
-                            raise Boom()
+                            # what the body raises has nothing to do with this client's socket
+                            body_exc = BODY_EXCEPTIONS[(len(trace) + len(history) + t) % len(BODY_EXCEPTIONS)]
+                            raise body_exc("raised by the body of async with")
                     trace.append(f"{a} body {out}")
-                except Boom:
-                    trace.append("ctx_exc Boom propagated")
+                except BODY_EXCEPTIONS as exc:
+                    trace.append(f"ctx_exc {type(exc).__name__} propagated")
+                    acc.count(f"body_exception_{type(exc).__name__}")
                     if a != "ctx_exc":
-                        raise
+                        acc.violation("context-manager-failed", f"history {history}: async with raised {type(exc).__name__}: {exc}", {"history": history})
                 except Exception as exc:
                     trace.append(f"{a} raised {type(exc).__name__}")
                     acc.violation("context-manager-failed", f"history {history}: async with raised {type(exc).__name__}: {exc}", {"history": history})
